@@ -496,17 +496,22 @@ class ParallelTemperedChain(BaseChain):
 
     def __getitem__(self, index):
         """Returns all of the chain data at the requested index."""
-        out = {'positions': self.positions[index],
-               'stats': self.stats[index],
-               'acceptance': self.acceptance[index]
+        # the iterations are the last axis of the arrays
+        index = index % len(self)
+        out = {'positions': self.positions[..., index],
+               'stats': self.stats[..., index],
+               'acceptance': self.acceptance[..., index]
                }
         if self.ntemps > 1:
-            out['temperature_swaps'] = \
-                self.temperature_swaps[index//self.swap_interval]
-            out['temperature_acceptance'] = \
-                self.temperature_acceptance[index//self.swap_interval]
-        if self._hasblobs:
-            out['blobs'] = self.blobs[index]
+            swapidx = index//self.swap_interval
+            # iterations after the last swap do not have a swap yet
+            if swapidx < len(self)//self.swap_interval:
+                out['temperature_swaps'] = \
+                    self.temperature_swaps[..., swapidx]
+                out['temperature_acceptance'] = \
+                    self.temperature_acceptance[..., swapidx]
+        if self.hasblobs:
+            out['blobs'] = self.blobs[..., index]
         return out
 
     def step(self):
